@@ -19,6 +19,15 @@
   current document, and `wsTree`, the files of the workspace's resolved journal (root journal first)
   or `none` when the server has no workspace view.
 
+  Histories.  The model is stateless: what is published for a document is a function of the
+  CURRENT contents (the buffer of that document; for every other file what the editor last saved).
+  The real server keeps caches (Workspace.cachedAccounts / cachedCommodities / cachedFormats, the
+  loader's parse cache, the workspace's resolved journal maintained by UpdateFile); op `c18.hist`
+  plays short histories of didOpen / didChange / didSave / didClose and formatting, completion,
+  hover, token, symbol, folding requests on one server and compares the last publish with this
+  stateless model, so a stale or wrongly filled cache is a correspondence break (and an oracle
+  failure).  Domain of that op: see harness/c18hist.go.
+
   Go maps.  Every `map[string]bool` in this code only ever holds `true` and is observed through
   three operations: lookup `m[k]`, `for k := range m` and `len(m) > 0`.  It is modelled as the
   list of inserted keys, duplicates allowed (inserting a key twice changes none of the three
